@@ -87,6 +87,12 @@ func (r *Parser) Next(f *Field) bool {
 // Err returns the last read error. At the end of input
 // it will always be equal to io.EOF.
 func (r *Parser) Err() error {
+	if r.inputScanner != nil {
+		// A read error takes precedence over ErrUnexpectedEOF: the input did not end, reading it failed.
+		if err := r.inputScanner.Err(); err != nil {
+			return err
+		}
+	}
 	if err := r.fieldScanner.Err(); err != nil {
 		return err
 	}
